@@ -392,6 +392,59 @@ func groupCompleteUnit(rel string) func() string {
 	}
 }
 
+// The distributor hands d.rootPool / the per-log pools to readers that hold only its READ lock, so every method of
+// x509util.PEMCertPool other than the ones that add certificates must leave the pool's fields alone.
+func pemCertPoolGettersPure(rel string) func() string {
+	return func() string {
+		f := parseFile(rp(rel))
+		var impure []string
+		n := 0
+		for _, d := range f.Decls {
+			fd, ok := d.(*ast.FuncDecl)
+			if !ok || fd.Body == nil || fd.Recv == nil || !strings.HasPrefix(funcQualName(fd), "PEMCertPool.") {
+				continue
+			}
+			name := fd.Name.Name
+			if name == "AddCert" || strings.HasPrefix(name, "Append") {
+				continue
+			}
+			n++
+			recv := ""
+			if len(fd.Recv.List[0].Names) == 1 {
+				recv = fd.Recv.List[0].Names[0].Name
+			}
+			writes := false
+			ast.Inspect(fd.Body, func(x ast.Node) bool {
+				switch y := x.(type) {
+				case *ast.AssignStmt:
+					for _, l := range y.Lhs {
+						if strings.HasPrefix(src(l), recv+".") {
+							writes = true
+						}
+					}
+				case *ast.IncDecStmt:
+					if strings.HasPrefix(src(y.X), recv+".") {
+						writes = true
+					}
+				case *ast.CallExpr:
+					c := src(y.Fun)
+					if c == recv+".AddCert" || strings.HasPrefix(c, recv+".Append") || (strings.HasPrefix(c, recv+".") && strings.HasSuffix(c, ".AddCert")) {
+						writes = true
+					}
+				}
+				return true
+			})
+			if writes {
+				impure = append(impure, name)
+			}
+		}
+		if n == 0 {
+			panic(bail{rel + ": no read-only methods of PEMCertPool found"})
+		}
+		return fmt.Sprintf("/-- generated from %s: the %d methods of PEMCertPool other than AddCert / Append… assign no field of the pool and add no certificate\n    (methods that do: %v) -/\ndef pemCertPoolGettersPure : Bool := %v\n", rel, n, impure, len(impure) == 0)
+	}
+}
+
 func init() {
 	r := "submission/races.go"
 	register(genFile{name: "RacesTie", imports: []string{"CTV.Basic.I64"}, units: []unit{
@@ -406,5 +459,6 @@ func init() {
 		{"RacesTie.setResultBase", setResultBaseBlock(r)},
 		{"RacesTie.refreshReplacesRoots", refreshReplacesRoots("submission/distributor.go")},
 		{"RacesTie.restartAlwaysRebuilds", restartAlwaysRebuilds("submission/proxy.go")},
+		{"RacesTie.pemCertPoolGettersPure", pemCertPoolGettersPure("x509util/pem_cert_pool.go")},
 	}})
 }
